@@ -33,6 +33,8 @@ Results (all for every `cfg`, `e`, every `op` with `OpOK op`, every `s` with `WF
   frameOracle_sound    (no typing needed) `frameOracle op (obsOfModel s) (obsOfModel s') = none`
   boundsOracle_sound   `WFx s → boundsOracle (obsOfModel s) = none`   (state predicate; `stateOracles_step_sound`)
   uniqOracle_sound     `WFx s → uniqOracle s (obsOfModel s) = none`   (state predicate; `stateOracles_step_sound`)
+  lenCapOracle_sound   `WFx s → lenCapOracle (obsOfModel s) = none`   (state predicate; `lenCapOracle_step_sound`,
+                       `boundsLenCap_sound` for the combined check of `judgeBlock`)
 
 All 29 operations are covered.  No oracle was found to demand more than the model guarantees.
 -/
@@ -1173,6 +1175,45 @@ theorem boundsOracle_sound (s : St) (hw : WFx s) : boundsOracle (obsOfModel s) =
       exact absurd (hg.symm.trans this) (by simp)
     · rfl
 
+/-- the handle invariant: a `BytesMut` / `Vec` never holds more bytes than its capacity -/
+theorem hlen_le_hcap {s : St} (hI : Inv s) {i : Nat} {h : Handle} (hi : s.hs[i]? = some (some h))
+    {c : Nat} (hc : hcapO h = some c) : hlen h ≤ c := by
+  have hok := hI.hok i _ hi
+  cases h with
+  | bytes repr reg off len => cases hc
+  | «mut» arc reg off len cap orig =>
+    cases hc
+    cases arc with
+    | none => exact (handleOKL_mutV.mp hok).1
+    | some a => exact (handleOKL_mutA.mp hok).1
+  | vec reg len cap =>
+    cases hc
+    exact (handleOKL_vec.mp hok).1
+
+theorem lenCap_ok_elem {s : St} (hI : Inv s) {o : Obs} (ho : o ∈ obsOfModel s) :
+    (match o.cap with | some c => decide (o.len > c) | none => false) = false := by
+  obtain ⟨i, h, hi, rfl⟩ := mem_obsOfModel.mp ho
+  rw [obs_cap, obs_len]
+  cases hc : hcapO h with
+  | none => rfl
+  | some c =>
+    have := hlen_le_hcap hI hi hc
+    simp only [decide_eq_false_iff_not]
+    omega
+
+/-- **`lenCapOracle` is sound**: on every well-formed model state no handle reports a length above
+its capacity (`Bytes` reports no capacity; for `BytesMut` / `Vec` this is the handle invariant
+`len ≤ cap` that `boundsOracle_sound` also rests on). -/
+theorem lenCapOracle_sound {s : St} (h : WFx s) : lenCapOracle (obsOfModel s) = none := by
+  have hI := h.inv
+  unfold lenCapOracle
+  split
+  · next o heq =>
+    have h1 := List.find?_some heq
+    have h2 := lenCap_ok_elem hI (List.mem_of_find?_eq_some heq)
+    exact absurd (h1.symm.trans h2) (by simp)
+  · rfl
+
 
 
 /-! ## `frameOracle` -/
@@ -1414,6 +1455,27 @@ theorem stateOracles_step_sound (cfg : Cfg) (e : Env) (op : Op) (s : St) (hw : W
   | ok v s' => rw [hst] at hs; exact ⟨boundsOracle_sound s' hs.1, uniqOracle_sound s' hs.1⟩
   | panic s' => rw [hst] at hs; exact ⟨boundsOracle_sound s' hs.1, uniqOracle_sound s' hs.1⟩
   | ub w s' => rw [hst] at hs; exact hs
+
+/-- `lenCapOracle` is silent on the successor state of every step (the third state oracle the judge
+evaluates together with `boundsOracle`; kept next to `stateOracles_step_sound`, whose statement is
+unchanged) -/
+theorem lenCapOracle_step_sound (cfg : Cfg) (e : Env) (op : Op) (s : St) (hw : WFx s) (ho : OpOK op) :
+    match Core.step cfg e op s with
+    | .ok _ s' => lenCapOracle (obsOfModel s') = none
+    | .panic s' => lenCapOracle (obsOfModel s') = none
+    | .ub _ _ => False := by
+  have hs := step_sound cfg e op s hw ho
+  unfold StepOKx at hs
+  cases hst : Core.step cfg e op s with
+  | ok v s' => rw [hst] at hs; exact lenCapOracle_sound hs.1
+  | panic s' => rw [hst] at hs; exact lenCapOracle_sound hs.1
+  | ub w s' => rw [hst] at hs; exact hs
+
+/-- the state check of `judgeBlock`, `(boundsOracle obs).orElse fun _ => lenCapOracle obs`, is silent
+on every well-formed model state -/
+theorem boundsLenCap_sound {s : St} (h : WFx s) :
+    ((boundsOracle (obsOfModel s)).orElse fun _ => lenCapOracle (obsOfModel s)) = none := by
+  rw [boundsOracle_sound s h, lenCapOracle_sound h]; rfl
 
 /-- no observed handle of a well-formed state is `wild` -/
 theorem not_wild (s : St) (hw : WFx s) : ∀ o ∈ obsOfModel s, o.wild = false := by
